@@ -230,8 +230,8 @@ def run_b_incompat(tier, ctx):
                     break
             if reproduced is not None:
                 out['replays_reproduced'] += 1
-                os.makedirs(os.path.join(ctx['root'], 'evidence', 'replays'), exist_ok=True)
-                rpath = os.path.join(ctx['root'], 'evidence', 'replays', 'C17-b_incompat-%s.json' % name)
+                os.makedirs(os.path.join(ctx['evdir'], 'replays'), exist_ok=True)
+                rpath = os.path.join(ctx['evdir'], 'replays', 'C17-b_incompat-%s.json' % name)
                 with open(rpath, 'w') as f:
                     json.dump(dict(property='C17', harness='e_pairs', impl='py',
                                    params=dict(fixed=vals), args=dict(r_req=0, r_opt=0, r_flags=0, i_req=0, i_opt=0, i_flags=0, mode=0), msg=reproduced.msg,
